@@ -332,10 +332,26 @@ func sameIndexColumns(a, b []IndexColumn) bool {
 // add `CREATE INDEX` statement to a table
 // Does not check for duplicate indexes.
 func (st *Schema) addCreateIndex(ci sql.CreateIndexStmt) {
+	cols := st.toIndexColumns(ci.IndexedColumns)
+	for i, c := range cols {
+		if c.Column != "" && st.Column(c.Column) < 0 && !isRowidName(c.Column) {
+			// SQLite reads a quoted name which is not a column of the table as
+			// a string literal: this is an expression, not a column.
+			cols[i].Column, cols[i].Expression = "", fmt.Sprintf("'%s'", c.Column)
+		}
+	}
 	st.Indexes = append(st.Indexes, SchemaIndex{
 		Index:   ci.Index,
-		Columns: st.toIndexColumns(ci.IndexedColumns),
+		Columns: cols,
 	})
+}
+
+func isRowidName(name string) bool {
+	switch upperASCII(name) {
+	case "ROWID", "OID", "_ROWID_":
+		return true
+	}
+	return false
 }
 
 // change sql index columns to schema index column. Looks up defaults from the
